@@ -503,7 +503,20 @@ def main_wrapper(prop, fn, argv=None):
     ap.add_argument("--seed", default=None)
     ap.add_argument("--replay", default=None)
     a = ap.parse_args(argv)
-    run = Run(prop, a.tier, a.seed)
+    seed, tier = a.seed, a.tier
+    if a.replay:
+        # a replay file records the seed and tier of the run that produced it: checks that do not implement
+        # a dedicated replay re-run deterministically with those, which reproduces the recorded violation
+        try:
+            with open(a.replay) as f:
+                rec = json.load(f)
+            print("replay of %s: signature %s -- %s" % (a.replay, rec.get("signature"), rec.get("what")))
+            seed = rec.get("seed", seed) if seed is None else seed
+            tier = rec.get("tier", tier) if tier is None else tier
+        except Exception as e:
+            print("MACHINERY-FAILURE property=%s: cannot read replay file: %s" % (prop, e))
+            return 2
+    run = Run(prop, tier, seed)
     run.replay_path = a.replay
     try:
         import mako
